@@ -57,6 +57,8 @@ static inline size_t varintBP128MaxBytes(size_t count) {
     if (remainder > 0) {
         bytes += 2 + remainder * 8; /* header + count + data */
     }
+    /* leading varint: element count (Encode64) or first value (Delta*) */
+    bytes += 9;
     return bytes;
 }
 
